@@ -36,6 +36,8 @@ type SpecEnv struct {
 	tparams map[string]types.Type
 	depth   int
 	allocPre *Term // allocation counter at entry (for fresh())
+	calleePanicked *Term // at a call site: whether the callee went through a recovered panic (unknown to the caller)
+	iterReports    *Term // in a loop's step clause: the report counter at the start of the iteration
 }
 
 func (e *SpecEnv) clone() *SpecEnv {
@@ -407,6 +409,9 @@ func (e *SpecEnv) index(xv, iv SVal) SVal {
 			sfail("submatch index out of range")
 		}
 		return SVal{V: c.Parts[k], T: types.NewSlice(typByte)}
+	case SymListVal:
+		i := e.asInt(iv, tyInt)
+		return SVal{V: e.x.cell(e.st(), e.x.symListElem(c, i)), T: c.Elem}
 	case ListSliceVal:
 		elems := e.x.listElems(e.st(), c)
 		if iv.C != nil {
@@ -723,7 +728,7 @@ func (e *SpecEnv) equal(l, r SVal) *Term {
 		case SubmatchVal:
 			return o.Not(v.Matched)
 		case FuncVal:
-			return o.False()
+			return e.x.funcIsNil(v)
 		}
 		sfail("comparison of %T with nil", l.V)
 	}
@@ -935,6 +940,165 @@ func (e *SpecEnv) evalCall(n *ECall) SVal {
 		}
 		v := arg(1)
 		return SVal{V: e.x.inLangRI(ri, e.x.seqView(e.st(), v.V)), T: typBool}
+	case "reported":
+		// reported(): the call made at least one report (TestingT.Errorf, directly or through testify)
+		post, _ := e.post.Ghost["reports"].(*Term)
+		pre, _ := e.pre.Ghost["reports"].(*Term)
+		if post == nil {
+			post = o.Int(0)
+		}
+		if pre == nil {
+			pre = o.Int(0)
+		}
+		return SVal{V: o.Lt(pre, post), T: typBool}
+	case "reportedInStep":
+		// in a `step` clause: this iteration of the loop made at least one report
+		if e.iterReports == nil {
+			sfail("reportedInStep() outside a loop step clause")
+		}
+		post, _ := e.post.Ghost["reports"].(*Term)
+		if post == nil {
+			post = o.Int(0)
+		}
+		return SVal{V: o.Lt(e.iterReports, post), T: typBool}
+	case "panicked":
+		// panicked(): this return is reached through a recovered panic (the function's recover block)
+		if e.calleePanicked != nil {
+			return SVal{V: e.calleePanicked, T: typBool}
+		}
+		if p, ok := e.post.Ghost["$panicked"].(*Term); ok {
+			return SVal{V: p, T: typBool}
+		}
+		return SVal{V: o.False(), T: typBool}
+	case "callres":
+		// callres("callee", k [, i]): result (i-th result) of the k-th call of `callee` in the function's source;
+		// arbitrary when that call was not executed on the path
+		if len(n.Args) < 2 {
+			sfail("callres(name, k [, i])")
+		}
+		nm, ok := n.Args[0].(*EStr)
+		if !ok {
+			sfail("callres: the callee name must be a string literal")
+		}
+		kv := arg(1)
+		if kv.C == nil {
+			sfail("callres: the ordinal must be a constant")
+		}
+		site := e.x.callSite(nm.S, int(kv.C.Int64()))
+		if site == nil {
+			sfail("callres: the function has no call #%d of %q", kv.C.Int64(), nm.S)
+		}
+		val := site.Value()
+		v := e.x.regOrArbitrary(e.post, val)
+		t := val.Type()
+		if len(n.Args) >= 3 {
+			iv := arg(2)
+			tv, isTup := v.(TupleVal)
+			tup, _ := t.(*types.Tuple)
+			if iv.C == nil || !isTup || tup == nil || int(iv.C.Int64()) >= len(tv) {
+				sfail("callres: bad result index")
+			}
+			return SVal{V: tv[iv.C.Int64()], T: tup.At(int(iv.C.Int64())).Type()}
+		}
+		return SVal{V: v, T: t}
+	case "callReported":
+		// callReported("callee", k): the k-th call of `callee` (source order) made a report; arbitrary when that call
+		// was not executed on the path
+		nm, ok := n.Args[0].(*EStr)
+		kv := arg(1)
+		if !ok || kv.C == nil {
+			sfail("callReported(name, k)")
+		}
+		site := e.x.callSite(nm.S, int(kv.C.Int64()))
+		if site == nil {
+			// the function makes no such call: like a call that did not run, the answer is arbitrary (a clause that
+			// needs the call then fails as an obligation instead of stopping the check)
+			key := fmt.Sprintf("$reparb.%s.%d", nm.S, kv.C.Int64())
+			if e.x.arbBools == nil {
+				e.x.arbBools = map[string]*Term{}
+			}
+			if _, ok := e.x.arbBools[key]; !ok {
+				e.x.arbBools[key] = o.Fresh("nocall.reported."+sanitize(nm.S), BoolSort)
+			}
+			return SVal{V: e.x.arbBools[key], T: typBool}
+		}
+		if _, ran := e.post.Regs[site.Value()]; ran || site.Value().Type().String() == "()" {
+			if r, ok := e.post.Ghost["$rep."+site.Value().Name()].(*Term); ok {
+				return SVal{V: r, T: typBool}
+			}
+		}
+		key := "$reparb." + site.Value().Name()
+		if e.x.arbBools == nil {
+			e.x.arbBools = map[string]*Term{}
+		}
+		if _, ok := e.x.arbBools[key]; !ok {
+			e.x.arbBools[key] = o.Fresh("notrun.reported."+site.Value().Name(), BoolSort)
+		}
+		return SVal{V: e.x.arbBools[key], T: typBool}
+	case "implementsV", "implementsP":
+		// implementsV(T, I): the method set of T implements interface I; implementsP: that of *T
+		tt := e.specType(n.Args[0])
+		it := e.specType(n.Args[1])
+		iface, ok := it.Underlying().(*types.Interface)
+		if !ok {
+			sfail("%s: %s is not an interface type", name, it)
+		}
+		if name == "implementsP" {
+			tt = types.NewPointer(tt)
+		}
+		return SVal{V: o.Bool(types.Implements(tt, iface)), T: typBool}
+	case "ucall":
+		// ucall(k, i): i-th result of the k-th call of an unknown callee executed by this function
+		kv, iv := arg(0), arg(1)
+		if kv.C == nil || iv.C == nil {
+			sfail("ucall(k, i): constants expected")
+		}
+		k, i := int(kv.C.Int64()), int(iv.C.Int64())
+		if k >= len(e.x.ucalls) || i >= len(e.x.ucalls[k].Results) {
+			sfail("ucall(%d, %d): the function made no such call", k, i)
+		}
+		return SVal{V: e.x.ucalls[k].Results[i], T: e.x.ucalls[k].Types[i]}
+	case "local":
+		// local("name"): current contents of a local variable that lives in memory (its address is taken)
+		nm, ok := n.Args[0].(*EStr)
+		if !ok {
+			sfail("local: the variable name must be a string literal")
+		}
+		v, t, found := e.x.localVar(e.post, nm.S)
+		if !found {
+			sfail("local: no addressable local variable %q", nm.S)
+		}
+		return SVal{V: v, T: t}
+	case "sameErr":
+		a, aok := arg(0).V.(ErrVal)
+		b, bok := arg(1).V.(ErrVal)
+		if !aok || !bok {
+			sfail("sameErr: error values expected")
+		}
+		return SVal{V: e.x.errSame(a, b), T: typBool}
+	case "isNilSlice":
+		sv, ok := arg(0).V.(SliceVal)
+		if !ok {
+			sfail("isNilSlice: not a byte slice")
+		}
+		return SVal{V: o.Eq(sv.Reg, o.Int(0)), T: typBool}
+	case "errMsg":
+		ev, ok := arg(0).V.(ErrVal)
+		if !ok {
+			sfail("errMsg: not an error value")
+		}
+		return SVal{V: e.x.errMsg(ev), T: typString}
+	case "hasPrefix", "hasSuffix":
+		a, b := arg(0), arg(1)
+		return SVal{V: e.x.hasAffix(e.x.seqView(e.st(), a.V), e.x.seqView(e.st(), b.V), name == "hasSuffix"), T: typBool}
+	case "reValid":
+		a := arg(0)
+		v, _ := e.x.reTerms(e.x.seqView(e.st(), a.V), StrVal{Arr: e.x.o.ConstArray(e.x.o.ByteArr(), e.x.o.Int(0)), Off: e.x.o.Int(0), Len: e.x.o.Int(0)})
+		return SVal{V: v, T: typBool}
+	case "reMatches":
+		a, b := arg(0), arg(1)
+		_, m := e.x.reTerms(e.x.seqView(e.st(), a.V), e.x.seqView(e.st(), b.V))
+		return SVal{V: m, T: typBool}
 	case "firstDiff":
 		// firstDiff(a, b): first index where the sequences differ (the shorter length if one is a prefix of the other)
 		a, b := arg(0), arg(1)
@@ -1546,4 +1710,46 @@ func (e *SpecEnv) convert(v SVal, t types.Type) SVal {
 	// named type with same underlying representation
 	v.T = t
 	return v
+}
+
+// specType resolves a type named in a specification: a type parameter of the function, a type of the package, or
+// pkg.Name of an imported package.
+func (e *SpecEnv) specType(ex Expr) types.Type {
+	switch n := ex.(type) {
+	case *EIdent:
+		if t, ok := e.tparams[n.Name]; ok {
+			return t
+		}
+		if obj, ok := e.pk.P.Types.Scope().Lookup(n.Name).(*types.TypeName); ok {
+			return obj.Type()
+		}
+	case *EType:
+		if t, ok := e.tparams[n.Text]; ok {
+			return t
+		}
+		if k := strings.LastIndex(n.Text, "."); k >= 0 {
+			for _, imp := range e.pk.P.Types.Imports() {
+				if imp.Name() == n.Text[:k] || imp.Path() == n.Text[:k] {
+					if obj, ok := imp.Scope().Lookup(n.Text[k+1:]).(*types.TypeName); ok {
+						return obj.Type()
+					}
+				}
+			}
+		}
+		if obj, ok := e.pk.P.Types.Scope().Lookup(n.Text).(*types.TypeName); ok {
+			return obj.Type()
+		}
+	case *ESel:
+		if id, ok := n.X.(*EIdent); ok {
+			for _, imp := range e.pk.P.Types.Imports() {
+				if imp.Name() == id.Name {
+					if obj, ok := imp.Scope().Lookup(n.Name).(*types.TypeName); ok {
+						return obj.Type()
+					}
+				}
+			}
+		}
+	}
+	sfail("cannot resolve type %s", ex)
+	return nil
 }
